@@ -36,6 +36,10 @@ import (
 //   subs: subscribe with/without options, re-subscribe, ACL-refused subscribe, colliding
 //         (id, filter) pairs, unsubscribe, drop, reconnect
 //   msgs: QoS 1 publishes x {retained, not} x {message expiry 30, none} + retained clear,
+//         retained publishes with one FIXED payload x {message expiry 30, none} whose content type
+//         and user property are numbered per publish (a retained message replaced by a publication
+//         with byte-identical payload and QoS but other properties / expiry: the newer
+//         publication's properties and expiry must be what the restart restores),
 //         acknowledgements, drop/reconnect, one tick
 
 var c20SessMust = []string{"ProtocolVersion", "Clean", "SessionExpiryInterval", "SessionExpiryIntervalFlag"}
@@ -101,7 +105,7 @@ func c20Next(sc string, deep bool, s *stScen) []string {
 		add(!s.Up["B"] && s.Conns["B"] < 2, "con|B|k")
 		add(s.Pubs < 1, "pub|c|0|0")
 	case "msgs":
-		add(s.Pubs < 2+d, "pub|c|0|0", "pub|c|1|0", "pub|c|1|e", "pub|c|0|e", "pub|b:c|1|0", "pub|b:c|0|e", "pub|c|1|clr")
+		add(s.Pubs < 2+d, "pub|c|1|0|s", "pub|c|1|e|s", "pub|c|0|0", "pub|c|1|0", "pub|c|1|e", "pub|c|0|e", "pub|b:c|1|0", "pub|b:c|0|e", "pub|c|1|clr")
 		add(s.Up["A"] && len(s.Pend["A"]) > 0, "ack|A")
 		add(s.Up["B"] && len(s.Pend["B"]) > 0, "ack|B")
 		add(s.Up["A"] && s.NDisc < 1+d, "drop|A")
